@@ -8,7 +8,8 @@ It creates a git worktree of /repo at /tmp/vmut/NAME/repo, applies the patch the
 /verif/.build/sg to /tmp/vmut/NAME/build/sg, recompiles only the objects affected by the patch (the changed .cpp/.c files, and
 every object that depends on a changed header according to ninja's dependency log) with the original compile commands re-pointed
 to the worktree, and relinks with ninja's own link commands. A check run with the two environment variables then sees the
-modified SimGrid; `ninja` in the clone has nothing to do because the rebuilt objects are newer than the (unchanged) /repo sources.
+modified SimGrid; vlib.build_sg does NOT run ninja in such a clone (marker file .verif_mutclone): ninja would consider the
+hand-rebuilt objects stale (deps log) and rebuild them from /repo, silently undoing the experiment.
 """
 import os, re, shutil, subprocess, sys
 
@@ -22,6 +23,11 @@ def sh(cmd, cwd=None, check=True):
         sys.stderr.write(p.stdout[-4000:])
         raise SystemExit("FAILED: " + cmd[:300])
     return p.stdout
+
+
+def retarget(cmd, wt):
+    """Point every /repo path of a command (sources, -I/repo, -I/repo/include ...) at the worktree."""
+    return re.sub(r'(?<![\w./-])/repo(?=/|\s|"|$)', wt, cmd)
 
 
 def main():
@@ -61,12 +67,13 @@ def main():
         obj, src = m.group(1), m.group(2)
         rel = os.path.relpath(src, "/repo") if src.startswith("/repo/") else None
         if (rel and rel in srcs) or obj in objs:
-            compile_cmds.append(c.replace("/repo/", wt + "/"))
+            compile_cmds.append(retarget(c, wt))
     for c in compile_cmds:
         sh(c, cwd=cl)
     for c in cmds:
         if re.search(r" -o (lib/\S+\.so\S*|bin/\S+|lib/simgrid/\S+) ", c) and " -c " not in c:
-            sh(c.replace("/repo/", wt + "/"), cwd=cl)
+            sh(retarget(c, wt), cwd=cl)
+    open(cl + "/.verif_mutclone", "w").write(patch + "\n")
     print("rebuilt %d objects (%d sources, %d headers changed)" % (len(compile_cmds), len(srcs), len(hdrs)), file=sys.stderr)
     print("VERIF_REPO=%s VERIF_BUILD=%s" % (wt, bd))
 
